@@ -149,6 +149,8 @@ def catalogue():
                        ('X.T', lambda X: X.T, (2, 3)), ('X.T[0]', lambda X: X.T[0], (2, 3)), ('X[1:,::-1]', lambda X: X[1:, ::-1], M),
                        ('x[np.int64]', lambda x: x[np.int64(2)], V), ('X[0,1]', lambda X: X[0, 1], M), ('X[1:][0]', lambda X: X[1:][0], M)]:
         add('index:' + nm, (lambda f: lambda x: f(x) * 1.5)(f), [(shp, 'R')], ['index'])
+    add('index:X[[0,2]]', lambda X: X[[0, 2]] * 1.5, [(M, 'R')], ['index', 'fancy'])
+    add('index:x[[2,0,0]]', lambda x: x[[2, 0, 0]] * np.array([1., 2., 3.]), [(V, 'R')], ['index', 'fancy'])
     add('reshape:contiguous', lambda X: A.reshape(X, (6,)) * np.arange(1., 7.), [((2, 3), 'R')], ['reshape'])
     add('reshape:method', lambda X: X.reshape((3, 2)) * 2.0, [((2, 3), 'R')], ['reshape'])
     add('reshape:noncontiguous', lambda X: A.reshape(X.T, (6,)) * np.arange(1., 7.), [((2, 3), 'R')], ['reshape', 'noncontig'])
@@ -203,6 +205,9 @@ def catalogue():
     add('solve:raw', lambda X, B: A.solve(X, B), [(M, 'wcperm'), ((3, 2), 'R')], ['linalg', 'pivot', 'structure'])
     add('lu:raw:L', lambda X: A.lu(X)[1], [(M, 'wcperm')], ['fact', 'pivot', 'structure'])
     add('lu:raw:U', lambda X: A.lu(X)[2], [(M, 'wcperm')], ['fact', 'pivot', 'structure'])
+    # eigenvectors where some directions have exactly repeated eigenvalues (not uniquely defined: only for the C11 split)
+    add('eigh:raw:vectors', lambda X: A.eigh(0.5 * (X + X.T))[1], [(M, 'symrep')], ['fact', 'structure', 'nonunique'])
+    add('eigh:raw:values', lambda X: A.eigh(0.5 * (X + X.T))[0], [(M, 'symrep')], ['fact', 'structure', 'nonunique'])
     # --- factorizations: uniquely defined outputs
     for shp, tag in [((3, 3), 'square'), ((4, 2), 'tall'), ((2, 3), 'wide')]:
         add('qr:Q:' + tag, lambda X: A.qr(X)[0], [(shp, 'R')], ['fact'], guard=qr_guard)
